@@ -47,7 +47,7 @@ func src(name string, v int) string {
 }
 
 func obj(ci int) *testobj.TestObject {
-	o := &testobj.TestObject{Id: "u" + strconv.Itoa(ci), Name: []byte([]string{"Ann", `a"b<c&d`, "x/y?z"}[ci%3]), Status: []int32{7, 3}[ci%2]}
+	o := &testobj.TestObject{Id: "u" + strconv.Itoa(ci), Name: []byte([]string{"Ann\x01", "a\"b<c&d\x17", "x/y?z\x1e\x0b"}[ci%3]), Status: []int32{7, 3}[ci%2]}
 	f := &testobj.TestFinance{}
 	for j := 0; j < ci; j++ {
 		f.History = append(f.History, testobj.TestHistory{Comment: []byte("c" + strconv.Itoa(j))})
